@@ -28,6 +28,8 @@ pub enum Clock {
     Forward,
     Backward,
     Real,
+    /// every process sees the same wall-clock millisecond
+    Fixed,
 }
 
 #[derive(Clone, Debug, Serialize, Deserialize, PartialEq, Eq, Hash)]
